@@ -7,20 +7,20 @@ CONSTANTS
   VoteSets = {{0, 1, 2}}
   Proposers = {0}
   Crafters = {1}
-  Laggers = {2}
-  MaxVotes = 3
-  MaxOdd = 1
-  MaxBlocks = 3
-  MaxRestarts = 0
+  Laggers = {1, 2}
+  MaxVotes = 2
+  MaxOdd = 0
+  MaxBlocks = 4
+  MaxRestarts = 1
   MaxPersists = 0
-  MaxTicks = 2
-  MaxCraft = 1
-  MaxForce = 1
-  MaxLag = 0
-  MaxProbes = 1
-  MaxReorg = 0
+  MaxTicks = 1
+  MaxCraft = 0
+  MaxForce = 0
+  MaxLag = 2
+  MaxProbes = 0
+  MaxReorg = 1
   ExportOn = TRUE
-  SampleMod = 20
+  SampleMod = 10
 INIT Init
 NEXT Next
 VIEW view
